@@ -5,6 +5,8 @@ Every block depends only on what SETUP defines (solutions 1 2, REACTION 1, EQUIL
 SELECTED_OUTPUT 1 / USER_PUNCH 1), so every sequence is a meaningful input; "definition" blocks contain no calculation
 (their only effect is on the state that has to persist to the following simulation, i.e. across a cut), "calculation"
 blocks use the persisted definitions and produce selected-output rows.
+SETUP's SELECTED_OUTPUT also names a species (NaCl) and a phase (Halite2) that only the block `dbadd` adds to the database:
+until then the columns hold the engine's "not found" value, afterwards real values, whatever the cut.
 Written from the PHREEQC 3 manual (keyword data blocks); no engine constant is used.
 """
 import itertools
@@ -46,6 +48,8 @@ SELECTED_OUTPUT 1
  -step true
  -pH true
  -totals Na Cl Ca C K
+ -molalities NaCl
+ -saturation_indices Halite2
 USER_PUNCH 1
  -headings mu water n
  10 PUT(GET(7) + 1, 7)
